@@ -19,7 +19,26 @@ class Oracle:
         self.taken: List[tuple] = []
         self.trace: List[str] = []
 
-    def choose(self, n: int, label: str, names=None) -> int:
+    sticky = None       # label -> choices made at its 1st, 2nd, ... occurrence within a call (replayed cases)
+
+    def begin_call(self):
+        self.occ = {}
+
+    def choose(self, n: int, label: str, names=None, sticky=True) -> int:
+        if self.sticky is not None and sticky:
+            # what the model leaves open about the environment is open once: a repeated call meets the same facts
+            k = self.occ.get(label, 0)
+            self.occ[label] = k + 1
+            lst = self.sticky.setdefault(label, [])
+            if k < len(lst):
+                self.trace.append(f"{label}={names[lst[k]] if names else lst[k]} (as before)")
+                return lst[k]
+            c = self._choose(n, label, names)
+            lst.append(c)
+            return c
+        return self._choose(n, label, names)
+
+    def _choose(self, n: int, label: str, names=None) -> int:
         i = len(self.taken)
         c = self.prefix[i] if i < len(self.prefix) else 0
         if c >= n:
@@ -27,6 +46,24 @@ class Oracle:
         self.taken.append((c, n))
         self.trace.append(f"{label}={names[c] if names else c}")
         return c
+
+
+_MEMO_WORDS = ("lru_cache", "cached_property", "memoize", "memoise", "memoized", "cache")
+
+
+def _memoised(fi) -> bool:
+    m = getattr(fi, "_memoised", None)
+    if m is None:
+        names = []
+        for d in getattr(fi.node, "decorator_list", []) or []:
+            d = d.func if isinstance(d, ast.Call) else d
+            names.append(d.attr if isinstance(d, ast.Attribute) else (d.id if isinstance(d, ast.Name) else ""))
+        m = any(any(w == n or (w != "cache" and w in n) for w in _MEMO_WORDS) for n in names)
+        try:
+            fi._memoised = m
+        except Exception:       # noqa: BLE001
+            pass
+    return m
 
 
 class SetupVerdict(Exception):
@@ -58,14 +95,19 @@ class Outcome:
 MAX_PATHS = 4000
 
 
-def explore(run) -> List[Outcome]:
-    """run(oracle) -> Outcome or raises Infeasible."""
+def explore(run, cap=None) -> List[Outcome]:
+    """run(oracle) -> Outcome or raises Infeasible.  cap: stop after that many paths (a bounded exploration: what
+    it finds is real, what it does not reach is not decided) - used for the additional, repeated-call variants of a
+    case in the quick tier only."""
     results = []
     prefix: List[int] = []
     n_paths = 0
     while True:
         orc = Oracle(prefix)
         n_paths += 1
+        if cap is not None and n_paths > cap:
+            explore.truncated += 1
+            break
         if n_paths > MAX_PATHS:
             raise AnalysisError("path explosion")
         try:
@@ -81,6 +123,9 @@ def explore(run) -> List[Outcome]:
             break
         prefix = [c for c, _ in seq[:-1]] + [seq[-1][0] + 1]
     return results
+
+
+explore.truncated = 0
 
 
 class _OpaqueMarker:
@@ -164,8 +209,8 @@ class Interp:
             where = f"{fr.fi.qualname}:{getattr(node, 'lineno', '?')}"
         raise AbsRaise(ExcV(name, args, node, where))
 
-    def choose(self, n, label, names=None):
-        return self.st.oracle.choose(n, label, names)
+    def choose(self, n, label, names=None, sticky=True):
+        return self.st.oracle.choose(n, label, names, sticky)
 
     def unsupported(self, node, why=""):
         fr = self.frames[-1] if self.frames else None
@@ -180,6 +225,23 @@ class Interp:
         summ = getattr(self.models, "summaries", None)
         if summ and fi.qualname in summ:
             return summ[fi.qualname](self, fi, list(args), kwargs, node)
+        if _memoised(fi) and not self.st.memo_hidden:
+            # functools.lru_cache / cache: equal arguments seen before on this path give the very object returned
+            # then (exceptions are not remembered)
+            table = self.st.lru.setdefault(fi.qualname, [])
+            for a0, k0, v0 in table:
+                if len(a0) == len(args) and sorted(k0) == sorted(kwargs) and \
+                        all(self.models.keys_equal(x, y, node) for x, y in zip(a0, args)) and \
+                        all(self.models.keys_equal(k0[k], kwargs[k], node) for k in k0):
+                    self.st.oracle.trace.append(f"memoised {fi.name}: replayed")
+                    return v0
+            v = self._call_function(fi, args, kwargs, node, closure)
+            table.append((list(args), dict(kwargs), v))
+            return v
+        return self._call_function(fi, args, kwargs, node, closure)
+
+    def _call_function(self, fi: FuncInfo, args: List[V], kwargs: Dict[str, V] = None, node=None, closure=None) -> V:
+        kwargs = dict(kwargs or {})
         if self.depth >= self.max_depth:
             raise Unsupported(f"inlining bound exceeded at {fi.qualname}")
         fnode = fi.node
